@@ -314,6 +314,18 @@ impl ATree {
         p
     }
 
+    /// Task ids chosen on the way from the root to node `at`.
+    pub fn nodes_choices(&self, mut at: u16) -> Vec<u8> {
+        let mut p = Vec::new();
+        while self.nodes[at as usize].parent != u16::MAX {
+            let par = self.nodes[at as usize].parent;
+            p.push(self.nodes[par as usize].ids[self.nodes[at as usize].pos_in_parent as usize]);
+            at = par;
+        }
+        p.reverse();
+        p
+    }
+
     /// Nodes where an execution cut after `n` steps can end: nodes at depth n plus leaves above.
     pub fn cut_ends(&self, n: usize) -> Vec<u16> {
         self.nodes
